@@ -306,6 +306,52 @@ fn main() -> ExitCode {
             println!("{}", line);
             ExitCode::SUCCESS
         }
+        "selftest" if args.get(2).map(|s| s.as_str()) == Some("transparent") => {
+            // the hooks must not change behaviour: ops under an installed
+            // simulation context (never-expiring clock, keyed hasher) equal the
+            // ops of a context-free run (real clock, std RandomState)
+            use gen::{gen_seq_case, Size};
+            let n: u64 = args.get(3).and_then(|s| s.parse().ok()).unwrap_or(20_000);
+            let mut bad = 0u64;
+            for i in 0..n {
+                let mut rng = Rng::new(run_seed(seed_from_env(), "transparent", i));
+                let size = match rng.weighted(&[6, 3, 1]) {
+                    0 => Size::Small,
+                    1 => Size::Medium,
+                    _ => Size::Large,
+                };
+                let mut seq = gen_seq_case(&mut rng, size, None);
+                seq.hasher = (0, rng.next());
+                let with = props::c07::capture_exec(&seq, true, simenv::Sched::Never);
+                let oldc = simenv::counted(&seq.old);
+                let newc = simenv::counted(&seq.new);
+                similar::verif::set_hasher(None);
+                let far = std::time::Instant::now() + std::time::Duration::from_secs(3600);
+                let without = engine::guarded(|| {
+                    with_lookups!(&seq, oldc, newc, |o, nn| similar::capture_diff_deadline(
+                        seq.alg.to(),
+                        o,
+                        seq.or(),
+                        nn,
+                        seq.nr(),
+                        Some(far)
+                    ))
+                });
+                match (with, without) {
+                    (Ok(a), Ok(b)) if a.ops == oracle::ops_of(&b) => {}
+                    _ => {
+                        bad += 1;
+                        println!("hooks not transparent on case {:?}", seq);
+                    }
+                }
+            }
+            println!("hooks-transparent: {} cases, {} disagreements", n, bad);
+            if bad > 0 {
+                ExitCode::from(2)
+            } else {
+                ExitCode::SUCCESS
+            }
+        }
         "selftest" => {
             // determinism: every claimed property, same seed, run in separate
             // processes with 1, 5 and 16 workers; digests must agree
